@@ -2,7 +2,7 @@
 ENGINES = [
     {"name": "E1-choice", "path": "mc/explore_choice.py", "serves_properties": ["C01"],
      "kind_free_text": "stateless DFS over choice points of the real code, weighted, deviation-bounded"},
-    {"name": "E2-bfs", "path": "mc/explore_bfs.py", "serves_properties": ["C19"],
+    {"name": "E2-bfs", "path": "mc/explore_bfs.py", "serves_properties": ["C09", "C18", "C19"],
      "kind_free_text": "explicit-state BFS over operation histories of real objects (replay from scratch, canonical-form dedup)"},
     {"name": "lattice", "path": "mc/lattice.py", "serves_properties": ["C02", "C03", "C04", "C05", "C06", "C07", "C08", "C10", "C11", "C20"],
      "kind_free_text": "complete enumeration of a finite configuration / program lattice against an independent reference"},
@@ -59,6 +59,12 @@ CLAIMED = {
         text="sample_momentum is characterised exactly by feeding basis normal draws through a scripted generator (linearity verified on further vectors): L L^T must equal the metric at the position (projected onto the cotangent space for constrained systems) for every system class x metric type / Riemannian family x d=1..3; the correlated transition is characterised as A mom + B z and must satisfy A C A^T + B B^T = C; coefficients 1 and 0 reduce to full refresh (bit-identical) and no change (no generator call).",
         note="Exact up to rounding because the maps are linear; positions from the lattice.",
     ),
+    "C09": dict(
+        engine="E2-bfs", category="model_checking", design_ref="DESIGN.md section 4 (C09)",
+        technique="explicit-state BFS over histories of assignments / copies / pickles / flows / cached-method calls on real ChainState and System objects, with a fixed probe suffix in every distinct state; from-scratch state as reference model",
+        text="For every system class x return convention a BFS (depth 2 quick, 3 thorough) over histories of variable assignment (new array or in-place write-through), direction assignment, copy, read-only copy, pickle round trip, component flows and calls of every cached method on up to two live states; in every distinct canonical state every method of two distinct system objects on every live state is compared exactly with a from-scratch state, then again after re-assigning each variable, and after invalidating + deriving (pickle / copy / read-only copy) + re-assigning (probe suffix). Second clause: integrator steps and transitions on an amnesic state (cache forgets after one read) equal those on a normal state bit for bit.",
+        note="States with equal canonical form (values, flags, cache digests, aliasing of cached arrays with live variables, dependency sets) are merged; value alphabet of two letters per variable.",
+    ),
     "C10": dict(
         engine="lattice", category="exploration", design_ref="DESIGN.md section 5 (C10)",
         technique="exhaustive enumeration of matrix expression trees up to a depth bound; dense-algebra oracle on every node",
@@ -70,6 +76,12 @@ CLAIMED = {
         technique="complete enumeration of differentiable matrix class x option lattice; finite-difference oracle over free parameter entries",
         text="Every DifferentiableMatrix class and option (sign +-1, lower/upper, inner matrix, SoftAbs coefficients, repeated eigenvalues, block compositions) at sizes 1..3(4): grad_log_abs_det and grad_quadratic_form_inv against central differences of the dense formulas over exactly the free parameter entries, including structure (zeros outside the triangle, tuple of blocks).",
         note="FD step 1e-5, tolerance 2e-6 relative; symmetric perturbations for symmetric-array parameters.",
+    ),
+    "C18": dict(
+        engine="E2-bfs", category="model_checking", design_ref="DESIGN.md section 4 (C18)",
+        technique="explicit-state BFS as for C09 with call counters on every user callback; E1 choice exploration of all random outcomes of transitions for the gradient-count clause",
+        text="In every distinct state of the C09 history space, for every cached method on every live state: a repeat call, a call on a copy, a call after assigning only variables the method does not depend on, and requests for lower-order values after a derivative callback that returned them, evaluate zero user callbacks (counted by wrappers around every user function). Trajectory clause: explicit integrators evaluate the gradient at most once per position over n=1..8 steps (n+1 for leapfrog), and every transition type, over all outcomes of its random draws, evaluates the gradient exactly once per new position when started from a state whose gradient is cached.",
+        note="Documented dependencies of cached methods are tabulated in the harness; evaluations at a never-evaluated start state are not judged.",
     ),
     "C19": dict(
         engine="E2-bfs", category="model_checking", design_ref="DESIGN.md section 4 (C19)",
